@@ -4,7 +4,7 @@
    PARTIAL: bookkeeping proved; "a result of an exited activation is discarded" is REFUTED for a completion event
    that is already queued (finding F9); a rolled-back entry leaves its services running (finding F19). *)
 From XSM Require Import Model.Macro Proofs.TimerP Proofs.LifeP.
-From XSM Require Import Model.TreeLib Gen.GenGeom Proofs.SkeletonBridge Proofs.LifeBridge.
+From XSM Require Import Model.TreeLib Gen.GenGeom Proofs.SkeletonBridge Proofs.LifeBridge Proofs.ServiceBridge.
 
 (* a service that is referenced but not registered is fatal at entry *)
 Theorem C09_missing_service_is_fatal : forall eng x i s,
@@ -31,6 +31,34 @@ Theorem C09_handled_error_keeps_running : forall eng iid val p s,
   p_kind p = PSvc iid false val true -> s_status (deliver eng p s) = s_status s.
 Proof. exact handled_failure_keeps_running. Qed.
 Print Assumptions C09_handled_error_keeps_running.
+
+(* TIE T: _has_error_handler, the test both engines consult before they put the machine into the error status, re-translated from
+   the current source on every build, is the `handled` flag every invoked service is armed with ... *)
+Theorem C09_handled_test_is_the_source : forall m i,
+  has_error_handler_src m i = match i_onerror i with [] => false | _ => true end.
+Proof. exact has_error_handler_bridge. Qed.
+Print Assumptions C09_handled_test_is_the_source.
+
+Theorem C09_async_service_carries_the_source_test : forall m x i s, Nat.eqb (i_src i) 0 = false ->
+  start_service Async x i s
+  = lift (fun s => arm x (s_now s) (PSvcStart (i_id i) (i_dur i) (i_ok i) (i_val i) (has_error_handler_src m i) (i_machine i)) s) s.
+Proof. exact start_service_async_flag_is_the_source. Qed.
+Print Assumptions C09_async_service_carries_the_source_test.
+
+Theorem C09_sync_service_carries_the_source_test : forall m x i s, Nat.eqb (i_src i) 0 = false ->
+  start_service Sync x i s
+  = (lift (logo (OSvc (i_id i))) ;;
+     lift (fun s => deliver Sync {| p_owner := x; p_due := s_now s; p_seq := 0;
+                                    p_kind := PSvc (i_id i) (i_ok i) (i_val i) (has_error_handler_src m i) |} s)) s.
+Proof. exact start_service_sync_flag_is_the_source. Qed.
+Print Assumptions C09_sync_service_carries_the_source_test.
+
+(* ... so: a service that fails, invoked by a definition for which the SOURCE's test says 'no handler', ends the machine in error *)
+Theorem C09_unhandled_per_source_test : forall eng m i val p s,
+  has_error_handler_src m i = false -> p_kind p = PSvc (i_id i) false val (has_error_handler_src m i) ->
+  s_status s = Running -> s_status (deliver eng p s) = Errored.
+Proof. intros eng m i val p s H Hk Hs. rewrite H in Hk. exact (unhandled_failure_fails eng (i_id i) val p s Hk Hs). Qed.
+Print Assumptions C09_unhandled_per_source_test.
 
 (* once the state is exited no task started for it remains; once the interpreter is stopped none remains at all *)
 Theorem C09_exit_cancels : forall x s,
